@@ -46,8 +46,16 @@ def run(prop, tier):
             sel = []
             for fmt in sorted(set(it['cfg']['fmt'] for it in items)):
                 grp = [it for it in items if it['cfg']['fmt'] == fmt]
-                sel += rnd.sample(grp, min(len(grp), 12 if fmt == 'uamiv'
-                                           else 5))
+                # always the configurations with the most steps and layers
+                # (cuts inside later steps, several records per step) ...
+                top = max((it['cfg']['nt'], it['cfg']['nz']) for it in grp)
+                must = [it for it in grp
+                        if (it['cfg']['nt'], it['cfg']['nz']) == top][:2]
+                rest = [it for it in grp if it not in must]
+                # ... and a sample of the others
+                sel += must + rnd.sample(rest, min(len(rest),
+                                                   (12 if fmt == 'uamiv'
+                                                    else 5) - len(must)))
         for i, it in enumerate(sel):
             n = it['bytes']
             if n <= 1500 or tier != 'quick':
